@@ -755,11 +755,19 @@ func (w *flWalker) ifStmt(v *ast.IfStmt) {
 	// calls inside the condition
 	w.condExpr(v, v.Cond)
 	cond := w.rx(v.Cond)
+	neg := "!(" + cond + ")"
+	// `a != b` is the negation of `a == b`: one spelling for both (an inverted test with swapped
+	// branches keeps every statement under the same guard; harmless seed C13-H2)
+	isNil := func(e ast.Expr) bool { id, ok := flUnparen(e).(*ast.Ident); return ok && id.Name == "nil" }
+	if be, ok := flUnparen(v.Cond).(*ast.BinaryExpr); ok && be.Op == token.NEQ && !isNil(be.X) && !isNil(be.Y) {
+		eq := w.rx(&ast.BinaryExpr{X: be.X, Op: token.EQL, Y: be.Y})
+		cond, neg = "!("+eq+")", eq
+	}
 	n := w.push(cond)
 	w.block(v.Body.List)
 	w.pop(n)
 	if v.Else != nil {
-		n := w.push("!(" + cond + ")")
+		n := w.push(neg)
 		w.stmt(v.Else)
 		w.pop(n)
 	}
